@@ -208,6 +208,20 @@ Proof.
     destruct Hpre as [Hpre|Hpre]; [apply N.eqb_neq in Hpre; congruence|apply Hp; exact Hpre].
 Qed.
 
+Lemma new_namespace_ok_inv v id n : v < 256 -> new_namespace v id = Ok n ->
+  wellformed_ns v id /\ n = n2b v :: id.
+Proof.
+  intros Hv H. unfold new_namespace, ns_validate, ns_id_size in H. cbn [ns_version ns_id tl] in H.
+  rewrite b2n_n2b in H by exact Hv.
+  destruct (((v =? 0) || (v =? 255)) && Nat.eqb (length id) 28 && (negb (v =? 0) || has_prefix (repeat Byte.x00 18) id)) eqn:E; [|discriminate].
+  inversion H; subst n. split; [|reflexivity].
+  rewrite !andb_true_iff, !orb_true_iff, negb_true_iff, Nat.eqb_eq, !N.eqb_eq in E.
+  destruct E as [[Hv' Hl] Hpre]. split; [exact Hl|].
+  pose proof (has_prefix_spec (repeat Byte.x00 18) id) as Hp. rewrite repeat_length in Hp.
+  destruct Hv' as [Hv'|Hv']; [left|right; exact Hv']. split; [exact Hv'|].
+  destruct Hpre as [Hpre|Hpre]; [apply N.eqb_neq in Hpre; congruence|apply Hp; exact Hpre].
+Qed.
+
 Theorem new_namespace_from_bytes_spec b :
   (new_namespace_from_bytes b = Ok b <->
    exists v id, b = v :: id /\ wellformed_ns (b2n v) id) /\
